@@ -212,6 +212,11 @@ type WriteEvent struct {
 type Writer struct {
 	FailAfter int
 	E         error
+	// Recover: after the one failing call every later call succeeds again
+	// (a transient condition); a WriteTo that tries again is then not
+	// stopped by the writer
+	Recover bool
+	failed  bool
 	Buf       []byte
 	Calls     []WriteEvent
 	Chunks    [][]byte
@@ -220,6 +225,11 @@ type Writer struct {
 func (w *Writer) Write(p []byte) (int, error) {
 	w.Chunks = append(w.Chunks, append([]byte(nil), p...))
 	if w.FailAfter < 0 {
+		w.Buf = append(w.Buf, p...)
+		w.Calls = append(w.Calls, WriteEvent{len(p), len(p), false})
+		return len(p), nil
+	}
+	if w.Recover && w.failed {
 		w.Buf = append(w.Buf, p...)
 		w.Calls = append(w.Calls, WriteEvent{len(p), len(p), false})
 		return len(p), nil
@@ -235,6 +245,7 @@ func (w *Writer) Write(p []byte) (int, error) {
 	}
 	w.Buf = append(w.Buf, p[:room]...)
 	w.Calls = append(w.Calls, WriteEvent{len(p), room, true})
+	w.failed = true
 	return room, w.E
 }
 
